@@ -962,18 +962,11 @@ func manualReopen(name string, what string, bound int) *vx.Scenario {
 // the registered list; this one waits for a decision on the repository's side.
 const todoSecondConnectCallThenReconnectionSucceeds = false
 
-// TODO (not registered: violates on the unchanged tree at the default schedule, no deviation needed): the same Connect()
-// call placed in the DIAL of a reconnection attempt (a dial that takes time, here 20 s until it times out) instead of the
-// back-off before it. clientSocket.Connect skips Manager.open() only while the manager's state is 'reconnecting'; during
-// the dial of an attempt Manager.connect has set it to 'connecting', so the open() is started and parks on connectMu
-// behind the whole reconnection loop. When the loop has given up (reconnect_failed announced) the parked open() dials
-// once more, fails, finds the back-off counter reset and starts a complete new reconnection cycle: with limit 2 and an
-// outage of 4 dials, 4 reconnect_attempt / 3 reconnect_error events and a reconnection after reconnect_failed, e.g.
-// [cut@1s attempt:1@1.86s error@21.86s attempt:2@24.05s Connect()@24.15s error@44.05s failed@44.05s attempt:1@1m5.33s
-// error@1m25.33s attempt:2@1m26.70s connect reconnect]. Same on the socket of another namespace. The case where the
-// reconnection succeeds (outage1-limit2) passes. Waits for a decision on the repository's side (candidate: Connect()
-// also skips open() while a reconnection loop is running, i.e. a flag held for the duration of reconnect(false)).
-const todoConnectCallDuringTheDialOfAnAttempt = false
+// The same Connect() call placed in the DIAL of a reconnection attempt (a dial that takes 20 s until it times out) instead
+// of the back-off before it. At the pinned tree this started a second reconnection cycle after reconnect_failed (the state
+// is 'connecting' during the dial, Connect() only looked for 'reconnecting'); repaired in /repo (known_findings.json,
+// "fixed: property=C15"), the scenarios are registered, mutant c15-connect-during-attempt-dial reverts the repair.
+const todoConnectCallDuringTheDialOfAnAttempt = true
 
 func permutations(s string) []string {
 	if len(s) <= 1 {
